@@ -92,6 +92,8 @@ func main() {
 		runRns(*seed, *hist, *steps, out)
 	case "mint":
 		runMint(*seed, *hist, *steps, out)
+	case "filetree":
+		runFiletree(*seed, *hist, *steps, out)
 	case "notif":
 		runNotif(*seed, *hist, *steps, out)
 	default:
